@@ -96,7 +96,7 @@ def cond_vars(c) -> set:
     if k == "not":
         return cond_vars(c[2])
     if k == "sub":
-        return cond_vars(c[3])
+        return cond_vars(c[3]) | set(c[2])      # the variables a sub-query selects are variables of the query too
     if k == "forall":
         return cond_vars(c[2]) - {c[1]}
     raise ValueError(c)
